@@ -47,6 +47,38 @@ Proof.
   rewrite (source_inst_expand m p th r Hp Cth Hr). apply B; [exact Cth|apply sub_refl].
 Qed.
 
+(** matching, stated of the generated [src_match_single] / [src_match] *)
+Theorem source_match_sound n p i seed th : cf p = true -> cf i = true -> cfd se ss seed = true ->
+  src_match_single n p i seed = Some (Some th) ->
+  sub seed th /\ cfd se ss th = true /\
+  forall th', cfd se ss th' = true -> sub th th' -> p_inst fc (expand fc p) (expand_delta fc th') = expand fc i.
+Proof. intros Hp Hi Hs H. rewrite src_match_single_eq in H. exact (match_sound_cur se ss fc eq_refl n p i seed th Hp Hi Hs H). Qed.
+
+Theorem source_match_complete n p i seed s res : cf p = true -> cf i = true -> cfd se ss seed = true ->
+  nosub (expand fc p) = true -> p_inst fc (expand fc p) s = expand fc i ->
+  (forall k, In k (p_metavars (expand fc p)) -> alookup k s <> None) -> esub fc seed s ->
+  src_match_single n p i seed = Some res -> exists th, res = Some th /\ esub fc th s.
+Proof.
+  intros Hp Hi Hs Hn Hinst Hcov Hseed H. rewrite src_match_single_eq in H.
+  exact (match_complete_cur se ss fc eq_refl eq_refl n p i seed s res Hp Hi Hs Hn Hinst Hcov Hseed H).
+Qed.
+
+Theorem source_match_list_sound n eqs th : forallb (fun e => cf (fst e) && cf (snd e)) eqs = true ->
+  src_match n eqs = Some (Some th) ->
+  forall p i, In (p, i) eqs -> forall th', cfd se ss th' = true -> sub th th' ->
+    p_inst fc (expand fc p) (expand_delta fc th') = expand fc i.
+Proof. intros Hall H. rewrite src_match_eq in H. exact (match_list_sound_cur se ss fc eq_refl eq_refl n eqs th Hall H). Qed.
+
+Theorem source_match_list_complete n eqs s res : forallb (fun e => cf (fst e) && cf (snd e)) eqs = true ->
+  (forall p i, In (p, i) eqs ->
+     nosub (expand fc p) = true /\ p_inst fc (expand fc p) s = expand fc i /\
+     (forall k, In k (p_metavars (expand fc p)) -> alookup k s <> None)) ->
+  src_match n eqs = Some res -> exists th, res = Some th.
+Proof.
+  intros Hall Hs H. rewrite src_match_eq in H.
+  exact (match_list_complete_cur se ss fc eq_refl eq_refl eq_refl n eqs s res Hall Hs H).
+Qed.
+
 (** the rules: with fuel beyond the structural measure, the source function returns a conclusion exactly when the
     documented rule applies (None = AssertionError); the conclusion is corner-free again *)
 Theorem source_mp_exact n L R : cf L = true -> cf R = true -> (dm L one + dm R one <= n)%nat ->
